@@ -1,0 +1,94 @@
+/* ANSI-C code produced by gperf version 3.1 */
+/* Command-line: /usr/bin/gperf -L ANSI-C --output-file evcomp-gp.c evcomp-gp.erf  */
+/* Computed positions: -k'' */
+
+#line 1 "evcomp-gp.erf"
+
+typedef enum {
+	COMP_UNK,
+	COMP_VCAL,
+	COMP_VEVT,
+	COMP_VTOD,
+	COMP_VJRN,
+} ical_comp_t;
+
+#line 22 "evcomp-gp.erf"
+struct ical_comp_cell_s {
+	const char *compstr;
+	ical_comp_t comp;
+};
+/* maximum key range = 5, duplicates = 0 */
+
+#ifdef __GNUC__
+__inline
+#else
+#ifdef __cplusplus
+inline
+#endif
+#endif
+/*ARGSUSED*/
+static unsigned int
+__evical_comp_hash (register const char *str, register size_t len)
+{
+  return len;
+}
+
+const struct ical_comp_cell_s *
+__evical_comp (register const char *str, register size_t len)
+{
+  enum
+    {
+      TOTAL_KEYWORDS = 4,
+      MIN_WORD_LENGTH = 5,
+      MAX_WORD_LENGTH = 9,
+      MIN_HASH_VALUE = 5,
+      MAX_HASH_VALUE = 9
+    };
+
+  static const struct ical_comp_cell_s wordlist[] =
+    {
+#line 30 "evcomp-gp.erf"
+      {"VTODO", COMP_VTOD},
+#line 29 "evcomp-gp.erf"
+      {"VEVENT", COMP_VEVT},
+#line 31 "evcomp-gp.erf"
+      {"VJOURNAL", COMP_VJRN},
+#line 28 "evcomp-gp.erf"
+      {"VCALENDAR", COMP_VCAL}
+    };
+
+  if (len <= MAX_WORD_LENGTH && len >= MIN_WORD_LENGTH)
+    {
+      register unsigned int key = __evical_comp_hash (str, len);
+
+      if (key <= MAX_HASH_VALUE && key >= MIN_HASH_VALUE)
+        {
+          register const struct ical_comp_cell_s *resword;
+
+          switch (key - 5)
+            {
+              case 0:
+                resword = &wordlist[0];
+                goto compare;
+              case 1:
+                resword = &wordlist[1];
+                goto compare;
+              case 3:
+                resword = &wordlist[2];
+                goto compare;
+              case 4:
+                resword = &wordlist[3];
+                goto compare;
+            }
+          return 0;
+        compare:
+          {
+            register const char *s = resword->compstr;
+
+            if (*str == *s && !strncmp (str + 1, s + 1, len - 1) && s[len] == '\0')
+              return resword;
+          }
+        }
+    }
+  return 0;
+}
